@@ -23,6 +23,23 @@ STUBS = ["crypto::aggsig::SecretKey::sign"]
 Q, T = ["quick", "thorough"], ["thorough"]
 TRIG = [("notar_vote", "a notar vote arrives last"), ("skip_vote", "a skip vote arrives last"), ("own_notar_a", "the node's own notar(A) vote arrives last"),
         ("own_notar_b", "the node's own notar(B) vote arrives last"), ("own_skip", "the node's own skip vote arrives last"), ("parent_certified", "the parent's certificate arrives last")]
+
+_pc = importlib.util.spec_from_file_location("pool_common", os.path.join(os.path.dirname(os.path.dirname(os.path.abspath(__file__))), "pool_common.py")); PC = importlib.util.module_from_spec(_pc); _pc.loader.exec_module(PC)
+POOL_BUILD = {"overlays": PC.OVERLAYS + [{"src": "C06/kani_c06_cut.rs", "dest": "src/consensus/pool/slot_state/kani_c06_cut.rs", "decl_in": SS, "decl": "pub(crate) mod kani_c06_cut;"},
+                                         {"src": "C06/kani_c06_pool.rs", "dest": "src/consensus/pool/kani_c06_pool.rs", "decl_in": PC.POOL, "decl": "mod kani_c06_pool;"}],
+              "redirects": PC.REDIRECTS, "coll_cap": 4}
+POOL_TIERS = {}
+def _wake(n, d):
+    return {"name": n, "path": "consensus::pool::kani_c06_pool", "tiers": POOL_TIERS.get(n, T if os.environ.get("VERIF_EXPERIMENTAL") else []), "role": "pool hand-over/parent certificate and child block, " + d, "build": POOL_BUILD, "covers": 1,
+            "stubs": [PC.SIGN_STUB, "log::max_level", "consensus::pool::PoolImpl::send_votor_event", "consensus::pool::PoolImpl::send_repair", "consensus::pool::PoolImpl::handle_finalization",
+                      "ParentReadyTracker::mark_notar_fallback", "ParentReadyTracker::handle_finalization"], "timeout": {"quick": 900, "thorough": 1800}, "mem_gb": 14, "cbmc_args": PC.CBMC,
+            "functions": ["PoolImpl::{add_block,add_cert,add_valid_cert,slot_state}", "SlotState::{notify_parent_known,notify_parent_certified,check_safe_to_notar,add_cert,is_notar_fallback_or_stronger}", "FinalityTracker::{add_parent,mark_notarized,mark_fast_finalized}"],
+            "bounds": "fresh pool, 2 validators; parent block in slot 1, child block(s) in slot 2 (and 3); " + d + "; concrete scenario per harness (the finite shape space kind x order x number of children is enumerated)"}
+WAKE = [("c06_pool_wake_notar_one", "one block waits; the parent's notarization certificate arrives (one add_cert)"), ("c06_pool_wake_nfallback_one", "one block waits; the parent's notar-fallback certificate arrives"),
+        ("c06_pool_wake_fastfinal_one", "one block waits; the parent's fast-finalization certificate arrives"), ("c06_pool_wake_notar_two", "two blocks (slots 2, 3) wait for the same parent; its notarization certificate arrives"),
+        ("c06_pool_wake_nfallback_two", "two blocks wait for the same parent; its notar-fallback certificate arrives"), ("c06_pool_block_first", "a block arrives (one add_block), parent not certified: it waits"),
+        ("c06_pool_block_second", "a block arrives while another block already waits for the same parent: both wait"), ("c06_pool_block_notar", "a block arrives after the parent's notarization certificate"),
+        ("c06_pool_block_nfallback", "a block arrives after the parent's notar-fallback certificate"), ("c06_pool_block_fastfinal", "a block arrives after the parent's fast-finalization certificate")]
 SPEC = {
     "property": "C06",
     "level_text": "Registered: the safe-to-notar DECISION KERNEL only - one call of the real SlotState::check_safe_to_notar on an arbitrary state (3 validators, symbolic stakes, who holds what, parent status, own votes, pending flag): it answers SafeToNotar exactly under the condition of the property statement (own voted but not for this block; 40%, or 20% with 60% including skip; parent certified), asks for repair exactly when only the block is missing, and keeps the signalled / pending bookkeeping consistent (a block that only waits for a skip vote or the own vote is pending). NOT covered by the solver: that every trigger re-evaluates (the as-soon-as half) and the safe-to-skip condition - the harnesses for them (below) exist but one add_vote with the re-evaluation loops exceeds the caps; the defect of that half (own notar vote last) was found and fixed via a native test, not by the solver. Original plan, kept for the record: bounded symbolic verification of the real safe-to-notar / safe-to-skip logic as an inductive step: 3 validators with arbitrary 16-bit stakes, each holding notar(A), notar(B), skip or nothing (symbolic), parent status of both blocks symbolic, bookkeeping consistent with the invariant 'signalled <=> condition holds, and a block that only waits for a skip vote or the own vote is pending'. For each possible last-arriving ingredient (another validator's notar vote, a skip vote, the node's own notar(A) / notar(B) / skip vote, the parent's certificate) the solver shows that the events returned are exactly the conditions of the property statement that became true in this step (never early, never twice, never missing) and that the invariant holds again - which extends the claim to histories of any length within the bound.",
@@ -39,6 +56,11 @@ SPEC = {
     "harnesses": [
         {"name": "c06_kernel_s2n", "path": MOD, "tiers": Q, "role": "safe-to-notar decision kernel", "stubs": STUBS, "covers": 4, "timeout": {"quick": 600, "thorough": 1500}, "mem_gb": 10,
          "functions": ["SlotState::check_safe_to_notar", "SlotState::notify_parent_known"], "bounds": "3 validators with symbolic 16-bit stakes, each holding notar(A) | notar(B) | skip | nothing, the two others possibly a skip-fallback vote on top of their notar vote; parent of A unknown / known / certified; A pending or not; one call"},
+    ] + [
+        {"name": n, "path": MOD, "tiers": (T if os.environ.get("VERIF_EXPERIMENTAL") else []), "role": "safe-to-skip kernel/" + d, "stubs": STUBS, "covers": 2, "timeout": {"quick": 600, "thorough": 1500}, "mem_gb": 14,
+         "functions": ["SlotState::add_vote", "SlotState::count_skip_stake", "SlotState::count_notar_stake"], "bounds": "3 validators with symbolic 16-bit stakes; validator 0 casts its first vote (" + d + "), the two others hold notar(A) | notar(B) | skip | nothing; no block reaches 20% (pending set empty)"}
+        for (n, d) in [("c06_kernel_s2s_skipvote", "a skip vote"), ("c06_kernel_s2s_ownskip", "the node's own skip vote"), ("c06_kernel_s2s_ownnotar", "the node's own notar vote"), ("c06_kernel_s2s_sfvote", "a skip-fallback vote")]
+    ] + [_wake(n, d) for (n, d) in WAKE] + [
         # Safe-to-skip step harnesses were tried again late in the session (C03's step harness with the safe-to-skip
         # bookkeeping left open: 2.2 M symex steps, memory cap - a PoolEvent pushed under a symbolic guard makes CBMC
         # explore the drop glue of every PoolEvent variant) and are not registered: the seeded change C06-m2 is missed.
